@@ -29,6 +29,13 @@ Theorem C15_gen_open_seek_swallow :
   open_seek_failure_falls_through = open_swallows_seek_error.
 Proof. reflexivity. Qed.
 
+(* both real openers (evalOpenerAt behind bigmachineExecutor.Reader, and
+   machineTaskPartition behind newMachineReader) put the offset retryReader gives
+   them into the Worker.Read request; the model's opener [attempt] opens at r_bytes *)
+Theorem C15_gen_openers_pass_offset :
+  eval_opener_passes_offset = true /\ machine_opener_passes_offset = true.
+Proof. split; reflexivity. Qed.
+
 (* ------------------------------------------------------------------ *)
 (* stores                                                              *)
 (* ------------------------------------------------------------------ *)
